@@ -335,29 +335,12 @@ func genABIPayload(t *rapid.T) []byte {
 	return p
 }
 
-func genC14(t *rapid.T) *Scenario {
-	ex := c14Extra{Target: byte(0x64 + uniform(t, 0, 2, "target"))}
-	ex.Kind = []byte{CALL, CALL, CALLCODE, DELEGATECALL, STATICCALL}[uniform(t, 0, 4, "kind")]
-	ex.Depth = uniform(t, 0, 3, "depth")
-	ex.GasArg = pickU64(t, "gasarg", 100000, 100000, 5000, 5001, 4999, 0)
-	ex.HostValue = rapid.SliceOfN(rapid.Byte(), 0, 64).Draw(t, "hostvalue")
-	ex.HostErr = chance(t, 15, "hosterr")
-	forks := []string{"Berlin", "London", "Shanghai", "Cancun", "Berlin", "London", "Istanbul", "Byzantium", "Petersburg"}
-	sc := &Scenario{Fork: forks[uniform(t, 0, len(forks)-1, "fork")]}
-	var payload []byte
-	switch ex.Target {
-	case 0x64:
-		n := []int{0, 1, 19, 20, 21, 52, 100}[uniform(t, 0, 6, "n64")]
-		payload = rapid.SliceOfN(rapid.Byte(), n, n).Draw(t, "p64")
-	case 0x65:
-		n := []int{0, 1, 31, 32, 33, 64, 80}[uniform(t, 0, 6, "n65")]
-		payload = rapid.SliceOfN(rapid.Byte(), n, n).Draw(t, "p65")
-	default:
-		payload = genABIPayload(t)
-	}
+// buildC14 deterministically builds the scenario for a payload and a configuration.
+func buildC14(ex c14Extra, fork string, payload []byte, jp bool) *Scenario {
+	sc := &Scenario{Fork: fork}
 	target := common.BytesToAddress([]byte{ex.Target})
 	sc.Accounts = []Account{{Addr: EOAAddr, Balance: hexU64(1 << 40), Nonce: 1}}
-	inv := Invocation{Origin: EOAAddr, Caller: EOAAddr, Input: payload, Gas: 2_000_000, JP: rapid.Bool().Draw(t, "jp")}
+	inv := Invocation{Origin: EOAAddr, Caller: EOAAddr, Input: payload, Gas: 2_000_000, JP: jp}
 	if ex.Depth == 0 {
 		inv.Kind = map[byte]string{CALL: "call", CALLCODE: "callcode", DELEGATECALL: "delegatecall", STATICCALL: "staticcall"}[ex.Kind]
 		inv.To = target
@@ -371,10 +354,6 @@ func genC14(t *rapid.T) *Scenario {
 		}
 	} else {
 		// W issues the call; optionally W's code runs under DELEGATECALL of a proxy
-		ex.Delegated = chance(t, 35, "delegated")
-		if forkIndex(sc.Fork) < 4 && ex.Kind == STATICCALL {
-			ex.Kind = CALL
-		}
 		W := ContractAddrs[0]
 		sc.Accounts = append(sc.Accounts, Account{Addr: W, Nonce: 1, Code: c14Wrapper(ex.Kind, ex.Target, ex.GasArg)})
 		entry := W
@@ -394,18 +373,45 @@ func genC14(t *rapid.T) *Scenario {
 		inv.Kind = "call"
 		inv.To = entry
 	}
-	sc.Invs = []Invocation{inv}
-	{
-		// Every case starts with an unrelated context write by ANOTHER address through a
-		// plain CALL: whatever that leaves behind (in the precompile instance, in the
-		// process) must not influence the call under test. It is not drawn, so that
-		// shrinking cannot remove it and every case is self-contained on replay.
-		w := Invocation{Kind: "call", Origin: EOAAddr, Caller: EOA2Addr, To: common.BytesToAddress([]byte{0x66}), Gas: 100000, JP: false,
-			Input: append(append(append(word32(big.NewInt(64)), word32(big.NewInt(96))...), word32(big.NewInt(0))...), word32(big.NewInt(0))...)}
-		sc.Invs = []Invocation{w, inv}
-	}
+	// Every case starts with an unrelated context write by ANOTHER address through a
+	// plain CALL: whatever that leaves behind (in the precompile instance, in the
+	// process) must not influence the call under test. It is not drawn, so that
+	// shrinking cannot remove it and every case is self-contained on replay.
+	w := Invocation{Kind: "call", Origin: EOAAddr, Caller: EOA2Addr, To: common.BytesToAddress([]byte{0x66}), Gas: 100000, JP: false,
+		Input: append(append(append(word32(big.NewInt(64)), word32(big.NewInt(96))...), word32(big.NewInt(0))...), word32(big.NewInt(0))...)}
+	sc.Invs = []Invocation{w, inv}
 	sc.Extra, _ = json.Marshal(ex)
 	return sc
+}
+
+var c14Forks = []string{"Berlin", "London", "Shanghai", "Cancun", "Berlin", "London", "Istanbul", "Byzantium", "Petersburg"}
+
+func genC14(t *rapid.T) *Scenario {
+	ex := c14Extra{Target: byte(0x64 + uniform(t, 0, 2, "target"))}
+	ex.Kind = []byte{CALL, CALL, CALLCODE, DELEGATECALL, STATICCALL}[uniform(t, 0, 4, "kind")]
+	ex.Depth = uniform(t, 0, 3, "depth")
+	ex.GasArg = pickU64(t, "gasarg", 100000, 100000, 5000, 5001, 4999, 0)
+	ex.HostValue = rapid.SliceOfN(rapid.Byte(), 0, 64).Draw(t, "hostvalue")
+	ex.HostErr = chance(t, 15, "hosterr")
+	fork := c14Forks[uniform(t, 0, len(c14Forks)-1, "fork")]
+	var payload []byte
+	switch ex.Target {
+	case 0x64:
+		n := []int{0, 1, 19, 20, 21, 52, 100}[uniform(t, 0, 6, "n64")]
+		payload = rapid.SliceOfN(rapid.Byte(), n, n).Draw(t, "p64")
+	case 0x65:
+		n := []int{0, 1, 31, 32, 33, 64, 80}[uniform(t, 0, 6, "n65")]
+		payload = rapid.SliceOfN(rapid.Byte(), n, n).Draw(t, "p65")
+	default:
+		payload = genABIPayload(t)
+	}
+	if ex.Depth > 0 {
+		ex.Delegated = chance(t, 35, "delegated")
+		if forkIndex(fork) < 4 && ex.Kind == STATICCALL {
+			ex.Kind = CALL
+		}
+	}
+	return buildC14(ex, fork, payload, rapid.Bool().Draw(t, "jp"))
 }
 
 func TestC14(t *testing.T)       { runProp(t, "C14", genC14, checkC14) }
